@@ -309,7 +309,7 @@ class SplineDisk(HalfSplineDisk):
     # (indexes of operations, which follow the grid: 4 core faces first)
     chops: ClassVar = [
         [4],  # axis 0
-        [4, 5, 7, 8, 9, 11],  # axis 1
+        [4, 5, 7, 9],  # axis 1 (one operation for each of the 4 directions)
     ]
 
     def __init__(
